@@ -1,3 +1,4 @@
+import BoltonsVerif.Generated.C18_Consts
 /-
 C18 — model of `boltons.ioutils`: `SpooledBytesIO`, `SpooledStringIO` (on
 `SpooledIOBase`) and `MultiFileReader`.
@@ -18,6 +19,7 @@ Everything else is a transliteration of the boltons methods, statement by statem
 Core Lean only.
 -/
 namespace C18
+open C18.Generated (CODECS_READLINE_SIZE CODECS_READSIZE_CAP CODECS_READSIZE_FACTOR)
 
 /-! ## 1. abstract random-access file (`io.BytesIO`, `tempfile.TemporaryFile`) -/
 
@@ -322,7 +324,9 @@ def Reader.readChunk (st : File CU) (r : Reader) (readsize : Nat) : List Char ×
      (Reader.read (Reader.read st r (some readsize)).2.1 (Reader.read st r (some readsize)).2.2 (some 1)).2)
   else Reader.read st r (some readsize)
 
-/-- the `while True` loop of `StreamReader.readline()` (size = None, keepends = True) -/
+/-- the `while True` loop of `StreamReader.readline()` (size = None, keepends = True); the first read size (72), the cap
+    of its doubling (8000) and the factor (2) are re-read from the interpreter's Lib/codecs.py on every run
+    (`C18.Generated.CODECS_*`) -/
 def rlLoop : Nat → Nat → List Char → File CU → Reader → List Char × File CU × Reader
   | 0, _, line, st, r => (line, st, r)
   | fuel + 1, readsize, line, st, r =>
@@ -341,13 +345,13 @@ def rlLoop : Nat → Nat → List Char → File CU → Reader → List Char × F
       if endsWithBrk l0 then (l0, (Reader.readChunk st r readsize).2)
       else if (Reader.readChunk st r readsize).1.isEmpty then
         (line ++ (Reader.readChunk st r readsize).1, (Reader.readChunk st r readsize).2)
-      else rlLoop fuel (if readsize < 8000 then readsize * 2 else readsize)
+      else rlLoop fuel (if readsize < CODECS_READSIZE_CAP then readsize * CODECS_READSIZE_FACTOR else readsize)
              (line ++ (Reader.readChunk st r readsize).1)
              (Reader.readChunk st r readsize).2.1 (Reader.readChunk st r readsize).2.2
     | [] =>
       if (Reader.readChunk st r readsize).1.isEmpty then
         (line ++ (Reader.readChunk st r readsize).1, (Reader.readChunk st r readsize).2)
-      else rlLoop fuel (if readsize < 8000 then readsize * 2 else readsize)
+      else rlLoop fuel (if readsize < CODECS_READSIZE_CAP then readsize * CODECS_READSIZE_FACTOR else readsize)
              (line ++ (Reader.readChunk st r readsize).1)
              (Reader.readChunk st r readsize).2.1 (Reader.readChunk st r readsize).2.2
 
@@ -358,7 +362,7 @@ def Reader.readline (st : File CU) (r : Reader) : List Char × File CU × Reader
     (l, st, match rest with
             | [only] => { r with charbuf := only, linebuf := [] }
             | _ => { r with linebuf := rest })
-  | [] => rlLoop (r.charbuf.length + st.rest.length + 2) 72 [] st r
+  | [] => rlLoop (r.charbuf.length + st.rest.length + 2) CODECS_READLINE_SIZE [] st r
 
 /-! ### the abstract code units as REAL UTF-8 bytes
 
